@@ -1106,7 +1106,13 @@ def render_partitioned(r, iface, rng, location="http://svc.invalid/endpoint", sc
             docs[bind_url] = definitions(r, iface, wns, '<wsdl:import namespace="%s" location="%s"/>'
                                          % (wns, relative_to(bind_url, iface_url, rng)) + again + sec["binding"])
             second = '<wsdl:import namespace="%s" location="%s"/>' % (wns, relative_to(root_url, bind_url, rng))
-            root_inner = (root_inner + second) if rng.random() < 0.5 else (second + root_inner)
+            if not self_import and rng.random() < 0.35:
+                # a chain instead of a diamond: service -> binding -> interface (+ types); the middle document
+                # has no <types> of its own
+                plan["wsdl_chain"] = True
+                root_inner = second
+            else:
+                root_inner = (root_inner + second) if rng.random() < 0.5 else (second + root_inner)
             docs[root_url] = definitions(r, iface, wns, root_inner + sec["service"])
         else:
             docs[root_url] = definitions(r, iface, wns, root_inner + sec["binding"] + sec["service"])
@@ -1114,6 +1120,13 @@ def render_partitioned(r, iface, rng, location="http://svc.invalid/endpoint", sc
         root_inner = "".join(wimports)
         if self_import:
             root_inner += '<wsdl:import namespace="%s" location="%s"/>' % (wns, root_url)
+        elif rng.random() < 0.3:
+            # a cycle of two: the root (which carries <types>) imports a document that imports the root back
+            plan["wsdl_cycle"] = True
+            aux_url = url_for("aux.wsdl")
+            docs[aux_url] = definitions(r, iface, wns, '<wsdl:import namespace="%s" location="%s"/>'
+                                        % (wns, relative_to(aux_url, root_url, rng)))
+            root_inner += '<wsdl:import namespace="%s" location="%s"/>' % (wns, relative_to(root_url, aux_url, rng))
         docs[root_url] = definitions(r, iface, wns, root_inner + types + sec["messages"] + sec["porttype"]
                                      + sec["binding"] + sec["service"])
     decoys = {"http://docs.invalid/decoy.xsd": b'<xsd:schema xmlns:xsd="%s" targetNamespace="urn:decoy"/>' % XSD.encode(),
